@@ -591,7 +591,35 @@ class Run:
                 nv = rv / rv.sum()
                 if not np.abs(frac - nv).max() <= FRAC_TOL:
                     ok = False
-                    self.fail(f'{method}:fractions', f'{where}: returned {frac.tolist()} but normalised Raoult vector is {nv.tolist()}')
+                    # Σ = 1 at the returned point, but the returned fractions are not the modified-Raoult ones (for a dew point:
+                    # x is not a fixed point of x_i = z_i/K_i(x); typically a negative fraction offsets the others).  This is the
+                    # same documented defect as a plain non-root when the FROZEN reference algorithm ends at fractions that are
+                    # inconsistent in the same way and the input is in a documented class; otherwise it stays `:fractions`.
+                    negative = bool((frac < 0).any())
+                    ref, stalled, ref_frac = self.reference_path(ids, pkg, method, zn, spec, self.inject)
+                    documented = False
+                    if ref is not None and ref_frac is not None and math.isfinite(ref) and ref > 0:
+                        Tr, Pr = (spec, ref) if method.endswith('P') else (ref, spec)
+                        try:
+                            rr, fe = self.raoult_residual(ids, pkg, method, zn, Tr, Pr, ref_frac, with_fracerr=True)
+                        except Exception:
+                            rr, fe = float('nan'), float('nan')
+                        documented = (not abs(rr) <= RES_TOL_MULTI) or (not fe <= FRAC_TOL) or bool((ref_frac < 0).any())
+                        d = abs(ref - val) / abs(val)
+                        self.tags.add('frozen-vs-real:' + ('bitwise' if d == 0 else 'within-1e-9' if d <= 1e-9 else 'differs'))
+                        where += (f' [frozen reference algorithm ends at {ref!r} with fractions {ref_frac.tolist()}: residual {rr:.3g}, '
+                                  f'fraction error {fe:.3g}; relative distance to the returned value {d:.2g}]')
+                    trace = bool(zn[zn > 0].min() < 1e-8)
+                    if documented and (imm or (negative and trace) or self.inject):
+                        status = 'documented'
+                        if self.inject: cause = ':unconverged:documented-path:fallback'
+                        elif imm: cause = ':unconverged:documented-path' + imm
+                        else: cause = ':negative-fraction:documented-path:trace-component'
+                        self.fail(f'{method}:not-a-root{cause}',
+                                  f'{where}: Σ = 1 (residual {resid:.3g}) but the returned fractions {frac.tolist()} are not the '
+                                  f'modified-Raoult ones {nv.tolist()}')
+                    else:
+                        self.fail(f'{method}:fractions', f'{where}: returned {frac.tolist()} but normalised Raoult vector is {nv.tolist()}')
         if ok and (abs(frac.sum() - 1) > 1e-12 or (frac < 0).any()):
             ok = False
             self.fail(f'{method}:not-normalised', f'{where}: fractions {frac.tolist()} sum to {frac.sum()!r}')
@@ -603,6 +631,7 @@ class Run:
         # a single component there is no equation (the model reports 0 there as well).
         claimed = resid if status == 'documented' else 0.
         ans = f'ok {"single" if single else "multi"} val={fbits(val)} res={fbits(claimed)} afres=* frac={fl(frac)}'
+        if status == 'documented': ans += ' doc=1'      # a listed, documented non-solution: neither residual nor fractions are a claim
         self.emit(line, ans)
         kappa = g * c * psat / f
         self.tags.update({f'n={n}', f'N={min(N, 5)}', 'T:%d-%d' % (int(Tq // 40) * 40, int(Tq // 40) * 40 + 40),
@@ -625,13 +654,17 @@ class Run:
             return None, False, None
 
     @staticmethod
-    def raoult_residual(ids, pkg, method, zn, T, P, frac):
-        """1 − Σ z·K (bubble) resp. 1 − Σ z/K (dew) at (T, P) with K recomputed from chemical.Psat and fresh γ/φ/pcf."""
+    def raoult_residual(ids, pkg, method, zn, T, P, frac, with_fracerr=False):
+        """1 − Σ z·K (bubble) resp. 1 − Σ z/K (dew) at (T, P) with K recomputed from chemical.Psat and fresh γ/φ/pcf
+        (and, on request, the largest deviation of `frac` from the normalised modified-Raoult vector)."""
         bub = method.startswith('bub')
         xliq, yvap = (zn, frac) if bub else (frac, zn)
         psat, g, f, c = record(ids, pkg, T, P, xliq, yvap)
         K = g * c * psat / (f * P)
-        return float(1. - ((zn * K) if bub else (zn / K)).sum())
+        rv = (zn * K) if bub else (zn / K)
+        r = float(1. - rv.sum())
+        if not with_fracerr: return r
+        return r, float(np.abs(np.asarray(frac, float) - rv / rv.sum()).max())
 
     @staticmethod
     def own_residual_diagnosis(obj, method, zn, T, P, frac):
@@ -862,6 +895,7 @@ def compare(impl, model):
     if impl.startswith('ok ') and model.startswith('ok '):
         if impl.split(' ')[1] != model.split(' ')[1]: return False
         if not _close(from_fbits(a['val']), from_fbits(b['val']), 1e-12, 0): return False
+        if a.get('doc') == '1': return True
         # impl: what the code claims (0: "this is a root"); model: residual recomputed from the recorded parameters
         tol = RES_TOL_SINGLE if impl.startswith('ok single') else RES_TOL_MULTI
         ra, rb = from_fbits(a['res']), from_fbits(b['res'])
